@@ -6,20 +6,20 @@ CONSTANTS Types
 VARIABLES phase, cfg, h, b, cx
 vars == <<phase, cfg, h, b, cx>>
 
-Cfgs == { [reg |-> r, star |-> s, default |-> d] : r \in SUBSET Types, s \in BOOLEAN, d \in Types }
+Cfgs == { [reg |-> r, star |-> s, default |-> d, defForm |-> f] : r \in SUBSET Types, s \in BOOLEAN, d \in Types, f \in DefForms }
 Hdrs == { [form |-> f, t |-> t] : f \in Forms, t \in Types }
 
-Init == phase = "pick" /\ cfg = [reg |-> {}, star |-> FALSE, default |-> CHOOSE t \in Types : TRUE]
+Init == phase = "pick" /\ cfg = [reg |-> {}, star |-> FALSE, default |-> CHOOSE t \in Types : TRUE, defForm |-> "plain"]
         /\ h = [form |-> "absent", t |-> CHOOSE t \in Types : TRUE] /\ b = BInit
         /\ cx = [op |-> "nil", rt |-> "nil"]
 
-PickCfg == phase = "pick" /\ \E x \in Cfgs : cfg' = x /\ phase' = "hdr" /\ UNCHANGED <<h, b, cx>>
+PickCfg == phase = "pick" /\ b = BInit /\ \E x \in Cfgs : cfg' = x /\ phase' = "hdr" /\ UNCHANGED <<h, b, cx>>
 PickHdr == phase = "hdr" /\ \E x \in Hdrs : h' = x /\ phase' = "checked" /\ UNCHANGED <<cfg, b, cx>>
 \* part B runs from the initial phase as an independent branch
 Step(i) == phase = "pick" /\ \E t \in BNext(b, i) : b' = t /\ UNCHANGED <<phase, cfg, h, cx>>
 
 \* the context lattice is a third independent branch
-PickCtx == phase = "pick" /\ \E o \in OpCtxKinds, r \in RtCtxKinds : cx' = [op |-> o, rt |-> r] /\ phase' = "ctx" /\ UNCHANGED <<cfg, h, b>>
+PickCtx == phase = "pick" /\ b = BInit /\ \E o \in OpCtxKinds, r \in RtCtxKinds : cx' = [op |-> o, rt |-> r] /\ phase' = "ctx" /\ UNCHANGED <<cfg, h, b>>
 
 Next == PickCfg \/ PickHdr \/ PickCtx \/ \E i \in Callers : Step(i)
 Spec == Init /\ [][Next]_vars /\ \A i \in Callers : WF_vars(Step(i))
@@ -29,6 +29,11 @@ InvCtx       == phase = "ctx" => CtxAllowed(cx.op, cx.rt, CtxSeen(CodeCtx(cx.op,
 \* mutant (must violate): an operation context equal to context.Background() is treated as unset
 BgUnset(op, rt) == IF op \notin {"nil", "background"} THEN "op" ELSE IF rt # "nil" THEN "rt" ELSE "none"
 InvBgUnset   == phase = "ctx" => CtxAllowed(cx.op, cx.rt, CtxSeen(BgUnset(cx.op, cx.rt), cx.op, cx.rt))
+InvWire      == phase = "ctx" => \A opc \in OpClientKinds, m, j \in BOOLEAN : WireAllowed(opc, m, j, WireSeen(CodeClient(opc), opc, m, j))
+InvRetained  == RetainedIntact(b)
+\* mutants (must violate)
+InvVerbatimDefault == phase = "checked" => PickAllowed(cfg, h, VerbatimDefaultPick(cfg, h))
+InvDefaultedWire   == phase = "ctx" => \A opc \in OpClientKinds, m, j \in BOOLEAN : WireAllowed(opc, m, j, DefaultedWireSeen(opc, m, j))
 InvOwn       == OwnResponse(b)
 InvOneClient == OneClient(b)
 AllDone      == <>(\A i \in Callers : b.pc[i] = "done" \/ phase # "pick")
